@@ -66,7 +66,10 @@ package net
 //@ func (*Peer).loadAndPublishReplicators -> (err)
 //@   loop 1 invariant repUpdates == old(repUpdates) + rangeindex + 1 && sameslice(rangeslice, res(GetAllReplicators, 1, 0)) && rangeindex + 1 <= len(rangeslice)
 //@   loop 2 invariant forall(string(s), maphas(storedCollectionIDs, s) ==> exists(j, 0 <= j && j <= rangeindex, rangeslice[j] == s))
-//@   loop 2 invariant sameslice(rangeslice, rep.CollectionIDs) && repUpdates == old(repUpdates) + rangeindex1 + 1 && rangeindex + 1 <= len(rangeslice) && rangeindex1 + 1 < len(rangeslice1) && sameslice(rangeslice1, res(GetAllReplicators, 1, 0))
+//@   loop 2 invariant sameslice(rangeslice, rep.CollectionIDs) && repUpdates == old(repUpdates) + rangeindex1 + 1
+//@   loop 2 invariant rangeindex + 1 <= len(rangeslice)
+//@   loop 2 invariant rangeindex1 + 1 < len(rangeslice1)
+//@   loop 2 invariant sameslice(rangeslice1, res(GetAllReplicators, 1, 0))
 //@   assert before call#1 updateReplicators: arg1 == rep.Info && forall(string(s), maphas(arg2, s) ==> exists(j, 0 <= j && j < len(rep.CollectionIDs), rep.CollectionIDs[j] == s))
 //@   ensures err == nil ==> repUpdates == old(repUpdates) + len(res(GetAllReplicators, 1, 0))
 //@   modifies repUpdates
